@@ -91,3 +91,101 @@ def is_call_to(ctx, unit: Unit, call: ast.AST, node: Optional[Node], *shorts: st
 def walk_own(node: ast.AST) -> Iterator[ast.AST]:
     from asl.loader import own_nodes
     return own_nodes(node)
+
+
+def make_resolver(ctx, unit, ops, skip=()):
+    """Resolver for asl.absint.Machine: calls of synchronous library helpers are evaluated
+    by a nested machine (so extracting code into a private helper stays visible)."""
+    from asl.absint import AbsEval
+
+    ev = AbsEval(ops)
+
+    def resolve(call, env):
+        try:
+            fv = ctx.vals.expr(unit, call.func, None)
+        except Exception:  # noqa: BLE001
+            return None
+        for f in fv:
+            target, offset = None, 0
+            if f[0] == "libfn":
+                target = ctx.pkg.lib_unit(f[1])
+            elif f[0] == "bound":
+                target = ctx.vals.find_method(f[1], f[2])
+                offset = 1
+            if target is None or target.kind != "sync" or target.is_property():
+                continue
+            if target.qualname.rsplit(".", 1)[-1] in skip:
+                continue
+            names = target.param_names()
+            bound = {}
+            if offset and names:
+                bound[names[0]] = ev.eval(call.func.value, env) if isinstance(call.func, ast.Attribute) else None
+            for pname, arg in zip(names[offset:], call.args):
+                if isinstance(arg, ast.Starred):
+                    break
+                bound[pname] = ev.eval(arg, env)
+            for kw in call.keywords:
+                if kw.arg:
+                    bound[kw.arg] = ev.eval(kw.value, env)
+            return cfg_of(target), bound
+        return None
+
+    return resolve
+
+
+def uncast(e):
+    """typing.cast(T, x) -> x (casts are no-ops at run time)."""
+    while isinstance(e, ast.Call) and norm(e.func) in ("cast", "typing.cast") and len(e.args) == 2:
+        e = e.args[1]
+    return e
+
+
+def raised_class(ctx, unit, r: ast.Raise) -> str:
+    """Name of the exception class an explicit ``raise`` statement raises; a call of a
+    private library helper that *returns* the exception is resolved to what it builds."""
+    exc = r.exc
+    if exc is None:
+        return ""
+    if isinstance(exc, ast.Call):
+        name = norm(exc.func)
+        try:
+            fv = ctx.vals.expr(unit, exc.func, None)
+        except Exception:  # noqa: BLE001
+            fv = frozenset()
+        for f in fv:
+            if f[0] == "libfn":
+                target = ctx.pkg.lib_unit(f[1])
+                if target is not None and target.kind == "sync":
+                    built = {norm(x.value.func) for x in walk_own(target.node)
+                             if isinstance(x, ast.Return) and isinstance(x.value, ast.Call)}
+                    if len(built) == 1:
+                        return built.pop()
+        return name
+    return norm(exc)
+
+
+def name_value(ctx, unit, cfg, node, name: str):
+    """The single expression bound to local ``name`` at ``node`` (through reaching
+    definitions), or None if there is not exactly one."""
+    from asl.flow import reaching
+    defs = reaching(cfg).defs_at(node, name)
+    vals = [d.info.get("value") for d in defs if d.kind == "store" and d.info.get("value") is not None]
+    if len(defs) == 1 and len(vals) == 1:
+        return vals[0]
+    return None
+
+
+class _CastStripper(ast.NodeTransformer):
+    def visit_Call(self, node):
+        self.generic_visit(node)
+        if norm(node.func) in ("cast", "typing.cast") and len(node.args) == 2:
+            return node.args[1]
+        return node
+
+
+def uncast_deep(e):
+    """A copy of ``e`` with every typing.cast(T, x) replaced by x."""
+    import copy
+    if e is None:
+        return None
+    return _CastStripper().visit(copy.deepcopy(e))
